@@ -25,8 +25,8 @@ var racePool = []string{
 	"mutation { incr(by: 3) }",
 	"{ __schema { queryType { name } } }",
 	"{ nope }",
-	"{ v { a } }",         // the service answers this one with GraphQL errors
-	"{ v { w { b } } }",   // the call carrying this one fails at transport level
+	"{ v { a } }",       // the service answers this one with GraphQL errors
+	"{ v { w { b } } }", // the call carrying this one fails at transport level
 	"query A { echo } query B { echo }",
 	"{ __typename n1s { id } }",
 	"{ __typename v { w { b } } }", // gateway-answered field next to a failing service field
@@ -72,9 +72,9 @@ func init() {
 		ID:    "C08",
 		Level: "other",
 		Rule: "race complement pass: every client batch of length 2 and a fifth of the batches of length 3 over a 15-operation pool (queries on either service, cross-service, a mutation, introspection, invalid, ambiguous, root __typename next to a failing field, variables with defaults and no variables object, " +
-			"service errors, transport failure, root __typename), each sent 3 times through the real handler of a binary built with -race, free-running; result i must equal the single answer of operation i and the race " +
+			"service errors, transport failure, root __typename), each sent 3 times through the real handler of a binary built with -race, free-running; result i must equal the single answer of operation i, a queryer made for one operation carries no sub-request of another one (the factory may tailor queryers per operation) and the race " +
 			"detector must report no data race with a frame in the code under test; the same with the caching planner at a 1 ms TTL (every batch of length 2-3 over 5 operations, 4 rounds 2 ms apart, so that concurrent planners meet expired entries); " +
-			"multipart batches with 100 kB files; non-trivial = batch of >=2 operations",
+			"multipart batches with 100 kB files; one batch of 96 cross-service operations (answered, in order); non-trivial = batch of >=2 operations",
 		Assumptions: []string{"the race detector sees the interleavings the Go scheduler happens to produce in this run (a complement to, not part of, the exhaustive exploration)"},
 		Jobs: func(tier string) []string {
 			var jobs []string
@@ -114,12 +114,23 @@ func init() {
 			// the single answers are fetched inside the first case that needs them (a gateway
 			// that dies answering an operation alone is that case's crash)
 			single := map[string]string{}
+			// the sub-requests an operation sends when it travels alone: in a batch, a queryer (made by the factory for one
+			// operation, which may tailor it to that operation) carries requests of its own operation only
+			f.RecordBound = true
+			aloneSubs := map[string]map[string]bool{}
 			singleOf := func(q string) string {
 				if v, ok := single[q]; ok {
 					return v
 				}
 				f.Fakes.Reset()
+				f.BoundLog = nil
 				_, b := f.Post(caseBody(Case{Q: q}), "application/json")
+				aloneSubs[q] = map[string]bool{}
+				for _, bc := range f.BoundLog {
+					for _, sq := range bc.Subs {
+						aloneSubs[q][sq] = true
+					}
+				}
 				v := canonJSON(b)
 				if raceRefOps[q] {
 					if o := f.Run(Case{Q: q}); o.Valid && o.RefErr == "" {
@@ -181,7 +192,15 @@ func init() {
 				set := map[string]bool{}
 				for rep := 0; rep < 3; rep++ {
 					f.Fakes.Reset()
+					f.BoundLog = nil
 					_, rb := f.Post(body, "application/json")
+					for _, bc := range f.BoundLog {
+						for _, sq := range bc.Subs {
+							if subs, ok := aloneSubs[bc.OpQuery]; ok && !subs[sq] {
+								set["a queryer made for one operation of the batch carried a request of another one"] = true
+							}
+						}
+					}
 					var res []json.RawMessage
 					if err := json.Unmarshal(rb, &res); err != nil || len(res) != len(bt) {
 						set["batch not answered with an array of the right length"] = true
@@ -207,6 +226,46 @@ func init() {
 					em.Sample(rp)
 				}
 				em.Done(true)
+			}
+			if sh == 0 && idx >= from {
+				// one long batch: 96 cross-service operations in flight at once (more than any round number of workers or slots).
+				// Every other case of this pass is answered within milliseconds; a batch that is not answered within two minutes
+				// hangs (the goroutines it left behind would hold whatever they wait on: the job ends there)
+				rp := map[string]interface{}{"world": wd.Name(), "batch": "96 x " + racePool[3]}
+				if em.Begin(idx, []string{"race-pass", "len96"}, rp) {
+					var list []json.RawMessage
+					for i := 0; i < 96; i++ {
+						list = append(list, caseBody(Case{Q: racePool[3]}))
+					}
+					want := singleOf(racePool[3])
+					body, _ := json.Marshal(list)
+					done := make(chan []byte, 1)
+					f.Fakes.Reset()
+					go func() { _, rb := f.Post(body, "application/json"); done <- rb }()
+					var sigs []string
+					select {
+					case rb := <-done:
+						var res []json.RawMessage
+						if err := json.Unmarshal(rb, &res); err != nil || len(res) != 96 {
+							sigs = append(sigs, "batch not answered with an array of the right length")
+						} else {
+							for i := range res {
+								if canonJSON(res[i]) != want {
+									sigs = append(sigs, "result at position i differs from the single-request answer of operation i")
+									break
+								}
+							}
+						}
+					case <-time.After(2 * time.Minute):
+						sigs = append(sigs, "a batch of 96 operations is never answered")
+					}
+					if len(sigs) > 0 {
+						em.Fail([]string{"race-pass", "len96"}, sigs, rp)
+						em.Done(true)
+						return
+					}
+					em.Done(true)
+				}
 			}
 		},
 	}
